@@ -45,7 +45,7 @@ func (s *tendermintWALStore[V, H, A]) updateIndexesFromCommittedRecords(
 		switch record.Kind {
 		case walRecordEntry:
 			entry := record.entry()
-			if entry.GetHeight() <= s.prunedUpToHeight {
+			if entry.GetHeight() < s.firstLiveHeight {
 				continue
 			}
 			s.addLiveEntry(walNum, entry)
@@ -83,10 +83,10 @@ func (s *tendermintWALStore[V, H, A]) deleteLiveHeight(height types.Height) {
 }
 
 func (s *tendermintWALStore[V, H, A]) pruneLiveEntriesUpTo(height types.Height) {
-	if height <= s.prunedUpToHeight {
+	if height < s.firstLiveHeight {
 		return
 	}
-	s.prunedUpToHeight = height
+	s.firstLiveHeight = height + 1
 	for liveHeight := range s.entriesByHeight {
 		if liveHeight <= height {
 			s.deleteLiveHeight(liveHeight)
